@@ -9,6 +9,9 @@ int64_t nv_part;                               /* ghost: k >= 0 when positions [
                                                 * (left behind by std::nth_element(begin, begin + k, end)), else -1 */
 double __CPROVER_uninterpreted_sorted(int64_t);   /* ghost: the k-th smallest of the values (invariant under permutation) */
 #define NV_SORTED(k) __CPROVER_uninterpreted_sorted(k)
+/* "is that element": the same bit pattern (`==` identifies -0.0 with 0.0, the congruence of the uninterpreted + and / does not) */
+union nv_bits { double d; uint64_t u; };
+#define NV_IDENT(a, b) (((union nv_bits){ .d = (a) }).u == ((union nv_bits){ .d = (b) }).u)
 /* ASSUMED contract of std::nth_element(first, nth, last) -- exactly what [alg.nth.element] promises and NOTHING MORE: the range
  * is permuted; *nth is the element a full sort would put there; every element before nth is <= *nth, every element after it
  * is >= *nth (stated at the ghost position).  NO order inside the two parts: the left neighbour of nth is NOT known to be the
@@ -23,7 +26,7 @@ static void nv_nth_element_f64(double* first, double* nth, double* last)
   _Bool whole = (fo == 0 && lo == nv_n);
   _Bool part = (nv_part >= 0 && ((fo == 0 && lo == nv_part) || (fo == nv_part + 1 && lo == nv_n)));
   __CPROVER_havoc_object(first);
-  if (whole || part) __CPROVER_assume(*nth == NV_SORTED(k));
+  if (whole || part) __CPROVER_assume(*nth == *nth && NV_IDENT(*nth, NV_SORTED(k)));
   if (fo <= nv_g && nv_g < k) __CPROVER_assume(first[nv_g - fo] <= *nth);
   if (k < nv_g && nv_g < lo) __CPROVER_assume(first[nv_g - fo] >= *nth);
   if (whole) nv_part = k; else if (!part) nv_part = -1;
@@ -37,7 +40,7 @@ static double* nv_max_element_f64(double* first, double* last)
   int64_t fo = first - nv_vb, lo = last - nv_vb, idx = nv_nondet_int64_t();
   __CPROVER_assume(0 <= idx && idx < lo - fo);
   if (fo <= nv_g && nv_g < lo) __CPROVER_assume(first[nv_g - fo] <= first[idx]);
-  if (nv_part > 0 && fo == 0 && lo == nv_part) __CPROVER_assume(first[idx] == NV_SORTED(nv_part - 1));
+  if (nv_part > 0 && fo == 0 && lo == nv_part) __CPROVER_assume(NV_IDENT(first[idx], NV_SORTED(nv_part - 1)));
   return first + idx;
 }
 #define NV_VALUES_OK (1 <= nv_n && nv_n <= 1000000 && __CPROVER_is_fresh(begin, nv_n * sizeof(double)) && nv_vb == begin && nv_part == -1)
